@@ -521,8 +521,12 @@ bool i_mep::load_impl(std::istream &in, const symbol_set &ss)
   // take advantage of it here: the gene class needs a special management
   // (among other things it needs access to the symbol_set to decode the
   // symbols).
-  decltype(genome_) genome(rows, cols);
-  for (auto &g : genome)
+  //
+  // The genes are appended to a vector as they are read and the matrix is
+  // allocated only afterwards: the sizes read from the stream aren't trusted
+  // for an up-front allocation.
+  std::vector<gene> genes;
+  for (std::size_t n(std::size_t(rows) * cols), i(0); i < n; ++i)
   {
     opcode_t opcode;
     if (!(in >> opcode))
@@ -548,13 +552,16 @@ bool i_mep::load_impl(std::istream &in, const symbol_set &ss)
           return false;
     }
 
-    g = temp;
+    genes.push_back(temp);
   }
 
   auto best(locus::npos());
 
   if (rows && !(in >> best.index >> best.category))
       return false;
+
+  decltype(genome_) genome(rows, cols);
+  std::copy(genes.begin(), genes.end(), genome.begin());
 
   best_ = best;
   genome_ = genome;
